@@ -7,7 +7,7 @@ def draws(s):
     return [s.next_float().hex(), s.next_int(0, 10 ** 6), s.next_float().hex()]
 
 
-def apply(cfg, order, history=False):
+def apply(cfg, order, history=False, reuse=False):
     from pydsol.core.streams import MersenneTwister, SimpleStreamUpdater, StreamSeedUpdater
     streams = {}
     for name in order:
@@ -23,6 +23,14 @@ def apply(cfg, order, history=False):
     else:
         up = StreamSeedUpdater({k: list(v) for k, v in cfg["table"].items()})
     out = {}
+    if reuse:
+        # the same updater object served other streams with the same names (other original seeds, another
+        # replication number) before: an updater must not remember anything about streams it has seen
+        decoys = {name: MersenneTwister(cfg["streams"][name] + 1000 + k) for k, name in enumerate(order)}
+        try:
+            up.update_seeds(decoys, (cfg["r"] + 1) % 3)
+        except Exception:
+            pass
     try:
         if cfg.get("one_by_one"):
             for name in order:
@@ -42,7 +50,7 @@ def main():
     for cfg in cfgs:
         names = list(cfg["streams"])
         r = {"base": apply(cfg, names), "perm": apply(cfg, cfg["perm"]), "hist": apply(cfg, names, history=True),
-             "alone": {}}
+             "reuse": apply(cfg, names, reuse=True), "alone": {}}
         for n in names:
             r["alone"][n] = apply(dict(cfg, streams={n: cfg["streams"][n]}), [n]).get(n)
         if cfg["updater"] == "table":
